@@ -86,7 +86,10 @@ def _add_sibling_repeats(rng, client, pool):
         uses_results = '"res"' in _json.dumps([st['args'], st['kw']])
         if refs and not uses_results:
             cand.append((k, refs[0]))
-    for k, ci in sorted(rng.sample(cand, min(len(cand), rng.choice([0, 1, 2]))), reverse=True):
+    hot = [c_ for c_ in cand if client['steps'][c_[0]]['fn'] in FOCUS_FNS]
+    if hot:
+        cand = hot          # change-directed: repeat the calls that reach changed code
+    for k, ci in sorted(rng.sample(cand, min(len(cand), rng.choice([0, 1, 2]) if not hot else rng.choice([1, 2, 3]))), reverse=True):
         st = copy.deepcopy(client['steps'][k])
         _swap_pool(st, ci, rng.choice(sib_of[ci]))
         st['probe'] = True
@@ -308,6 +311,7 @@ class _Skip(Exception):
 
 _WORLD = 'ref'
 _CLOCK = None
+FOCUS_FNS = frozenset()      # client-level calls that reach code changed relative to the baseline (set by Adapter.prepare)
 
 
 def _materialise(pool, world):
@@ -1268,6 +1272,8 @@ class Adapter(object):
                 Adapter.focus = focus.compute()
             except Exception as e:
                 Adapter.focus = {'changed': [], 'focus': [], 'error': str(e)[:200]}
+        global FOCUS_FNS
+        FOCUS_FNS = frozenset((Adapter.focus or {}).get('focus') or [])
         # public functions the catalogue has no entry for (added by the change under test): called by parameter name
         try:
             import inspect
